@@ -302,8 +302,10 @@ def check_front_ends(ck, tree, types, leaves, g, grads, regime, entry, show):
     for name, kw in (("functional.jacobian", {}), ("functional.jacobian[vectorize]", {"vectorize": True})):
         try:
             J = torch.autograd.functional.jacobian(f, tuple(xs), **kw)
-        except Exception as e:  # vectorised path needs vmap rules: unsupported compositions are recorded
+        except Exception as e:  # the program itself ran (its backward was judged above): a front-end that cannot differentiate it has failed
             ck.note_add(f"front_end_raised/{name}", 1)
+            ck.violation("front_end", name, "torch.autograd.functional.jacobian", "raised:" + type(e).__name__,
+                         {"program": show, "api": name, "error": str(e)[:300]})
             continue
         ck.count("front_end", f"{name}", key=(name, show))
         for Ji, x, gr in zip(J, xs, grads):
@@ -329,6 +331,8 @@ def check_front_ends(ck, tree, types, leaves, g, grads, regime, entry, show):
             continue
         except Exception as e:
             ck.note_add(f"front_end_raised/{name}", 1)
+            ck.violation("front_end", name, "optim.functional.modjac", "raised:" + type(e).__name__,
+                         {"program": show, "api": name, "error": str(e)[:300]})
             continue
         J = J if isinstance(J, tuple) else (J,)
         ck.count("front_end", name, key=(name, show))
